@@ -200,7 +200,8 @@ def identity_jobs(tier, rng, g):
     src = " ".join(by_code[c] for c in named)
 
     def press(c):
-        return [["d", c], ["t", 2], ["u", c], ["t", 2]]
+        # with two OS auto-repeat events while the key is held (the no-op codes must stay silent on this path too)
+        return [["d", c], ["t", 2], ["r", c], ["r", c], ["t", 1], ["u", c], ["t", 2]]
     V = [("unmapped", "(defcfg process-unmapped-keys yes)\n(defsrc)\n(deflayer l0)\n", dom),
          ("self", "(defcfg process-unmapped-keys yes)\n(defsrc %s)\n(deflayer l0 %s)\n" % (src, src), dom),
          ("trans", "(defsrc %s)\n(deflayer l0 %s)\n" % (src, " ".join("_" for _ in named)), named),
